@@ -272,11 +272,15 @@ class Component( ComponentLevel7 ):
           top._dsl.all_M_constraints.add( (x, y, is_equal) )
       else:
         kind, _, var_name, var_cons = cons
-        var = eval(var_name)
+        var = eval(var_name) if isinstance( var_name, str ) else var_name
         local, glob = ( host._dsl.RD_U_constraints, top._dsl.all_RD_U_constraints ) if kind == 'RD' else \
                       ( host._dsl.WR_U_constraints, top._dsl.all_WR_U_constraints )
-        local[var] |= var_cons
-        glob[var]  |= var_cons
+        for (sign, b) in var_cons:
+          if isinstance( b, tuple ): # ( component name, block name )
+            b = eval( b[0] )._dsl.name_upblk.get( b[1] )
+          if b is not None:
+            local[var].add( (sign, b) )
+            glob[var].add( (sign, b) )
 
     for host, func, obj_name in provided_func_reads:
       host._dsl.func_reads[func].add( eval(obj_name) )
@@ -455,7 +459,22 @@ class Component( ComponentLevel7 ):
               glob[var] -= cons
               if not glob[var]:
                 del glob[var]
-            saved_constraints.append( ( kind, host, "top"+repr(var)[1:], cons ) )
+            # a constrained block of the removed component is saved by name
+            saved_constraints.append( ( kind, host, "top"+repr(var)[1:],
+                                        { ( sign, removed_blks.get( b, b ) ) for (sign, b) in cons } ) )
+
+          # U(s.c.get_update_block('up')) < RD(s.x): the signal stays, the
+          # constrained block belongs to the removed component
+          for var in list( local ):
+            stale = { (sign, b) for (sign, b) in local[var] if b in removed_blks }
+            if stale:
+              local[var] -= stale
+              if not local[var]: del local[var]
+              if var in glob:
+                glob[var] -= stale
+                if not glob[var]: del glob[var]
+              saved_constraints.append( ( kind, host, var,
+                                          { ( sign, removed_blks[b] ) for (sign, b) in stale } ) )
 
         # U(s.c.get_update_block('up')) < U(blk): a block of the removed
         # component was ordered; the block of that name of the new
